@@ -57,6 +57,7 @@ def drain_facts(cx, pr, rep, cname, handle_pred, what, close_field='_wfp'):
 
 def check(repo, rep):
     cx = Ctx(repo)
+    rep.cx = cx
     pr = Protocol(cx, rep)
     if len(pr.inbox) != 1 or pr.stop is None:
         rep.unknown('worker protocol roles not identified')
@@ -87,6 +88,12 @@ def check(repo, rep):
         sends = [e[1] for _, e in self_calls(l, 'send')]
         isdata = any((g := norm_cmp(ct, tr)) and g[0] == 'is not' and g[1] == blk and g[2] == ('c', None) for ct, tr, _ in l.conds) or any(ct == blk and tr for ct, tr, _ in l.conds)
         isnone = any((g := norm_cmp(ct, tr)) and g[0] == 'is' and g[1] == blk and g[2] == ('c', None) for ct, tr, _ in l.conds) or any(ct == blk and not tr for ct, tr, _ in l.conds)
+        truthy = [c for c in l.conds if c[0] == blk]
+        if truthy:
+            # the tokenizer ends the stream on `frame is None` only (C01-C04): a saver that ends it on a falsy block stops its writer on
+            # an empty block while the tokenizer keeps reading -- every later block is lost
+            rep.ob('saver.read(): end of stream is decided as the tokenizer decides it (block is None), not by truthiness (an empty block is a block)', False, cx.where(rd[0], truthy[0][2]),
+                   'StreamSaverWorker.read:truthiness', 'tests `%s` for truth' % show(blk)[:60])
         if isdata:
             ok = len(sends) == 1 and sends[0][2] == (blk,)
             rep.ob('saver.read(): every block is forwarded to the writer exactly once, unconditionally, before it is returned', ok, cx.where(rd[0], l.node), 'StreamSaverWorker.read[DATA]', 'sends %s' % [show(s_)[:60] for s_ in sends],
@@ -128,7 +135,7 @@ def check(repo, rep):
                 rep.ob('flush skips writing only when the cache is empty', okc, W(flush), 'StreamSaverWorker.%s:skip' % flush.name, 'no write under %s' % [(show(c[0])[:40], c[1]) for c in l.conds])
     # ---- S3 shutdown: drain, flush, close
     def handled_saver(l, msg):
-        return sum(1 for e in l.effects if e[0] == 'call' and iscacheapp(e[1], msg))
+        return sum(1 for e in l.effects if e[0] == 'call' and (iscacheapp(e[1], msg) or e[1] == ('call', ('attr', ('self',), pm[2].name), (msg,), ())))
     for l in drain_facts(cx, pr, rep, 'StreamSaverWorker', handled_saver, 'cached'):
         cs = [(i, e[1]) for i, e in enumerate(l.effects) if e[0] == 'call']
         fl = [i for i, c in cs if flush is not None and c == ('call', ('attr', ('self',), flush.name), (), ())]
@@ -242,7 +249,8 @@ def check(repo, rep):
                 rep.ob('joiner: each detection message writes its region\'s data (message[1].data) exactly once', n_ == 1 and not l.conds, cx.where(pmj[0], pmj[2]), 'AudioEventsJoinerWorker._process_message', '%d writes' % n_)
 
             def handled_joiner(l, msg):
-                return sum(1 for e in l.effects if e[0] == 'call' and isev(e[1], msg))
+                # written directly, or handed to the message hook (which writes it exactly once: decided just above)
+                return sum(1 for e in l.effects if e[0] == 'call' and (isev(e[1], msg) or e[1] == ('call', ('attr', ('self',), pmj[2].name), (msg,), ())))
             for l in drain_facts(cx, pr, rep, 'AudioEventsJoinerWorker', handled_joiner, 'written'):
                 cl = [e for e in l.effects if e[0] == 'call' and e[1][0] == 'call' and e[1][1][0] == 'attr' and e[1][1][2] == 'close' and e[1][1][1][0] == 'attr' and e[1][1][1][1] == ('self',)]
                 extra = [e for e in l.effects if e[0] == 'call' and e[1][0] == 'call' and e[1][1][0] == 'attr' and e[1][1][2] in ('writeframes', 'writeframesraw')]
